@@ -1,8 +1,110 @@
-import BroodModel.Query
+/-
+  C03 — Queries return exactly the matching entities with the right values.
+
+  `World.query` mirrors `World::query` → `result::Iter`: archetypes filtered by
+  `And<Views, Filter>` on their identifier, then for every row one cell per view, the column found
+  by the identifier bit walk (`colIndex`) and read at the view's component type.  Every unchecked
+  step is checked in the model (`Out.ub`: absent column read as present = `uninitRead`, wrong
+  column = `typeConfusion`, short column = `oobRow`).  `Spec.query` is the reference: filter the
+  denoted map by component sets, look the viewed components up by type.
+
+  Mutation through query-wide `&mut` views (`World.queryWrite`) and the parallel iterators are
+  compared with the code by the correspondence check (C09 for the latter); single-entity writes
+  are in C01 (`C01_write`: seen by later reads of that entity only).
+-/
+import BroodModel.Lemmas.QueryL
+
 namespace Brood
-/-- Optional views and identifiers never restrict the result set. -/
-theorem C03_optional_filter_true (m : Mask) (c : Nat) :
-    (View.oref c).filter m = true ∧ (View.omut c).filter m = true ∧ View.ident.filter m = true := by
+
+/-- **A query yields exactly the reference's rows** — one per live entity whose component set
+satisfies the filter and contains every non-optional viewed component, each carrying that
+entity's identifier and values, optional views `absent` exactly when the component is absent —
+and never performs an unchecked read with a violated precondition. -/
+theorem C03_query_exact {w : World} (hi : Inv w) (vs : List View) (f : Filter) :
+    w.query vs f = .ok (Spec.query w.n ⟨w.ents, w.res, []⟩ vs f) :=
+  query_eq_spec hi vs f
+
+/-- The entities the reference ranges over are exactly the live entities of the map view, each
+once; so "one result per matching live entity, and nothing else". -/
+theorem C03_entities_exact {w : World} (hi : Inv w) :
+    (∀ e : Ent, e ∈ w.ents ↔ w.entity e.id = some e.vals) ∧ (w.ents.map (·.id)).Nodup ∧
+    w.ents.length = w.len := by
+  refine ⟨fun e => mem_ents_iff hi, ?_, ?_⟩
+  · rw [ents_ids]; exact (len_counts_entities hi).1
+  · have := (len_counts_entities hi).2.1
+    rw [← ents_ids, List.length_map] at this
+    exact this
+
+/-- Each result row is one matching live entity's row and every matching live entity has one. -/
+theorem C03_rows_characterised {w : World} (hi : Inv w) (vs : List View) (f : Filter)
+    (row : List Cell) :
+    (∃ rows, w.query vs f = .ok rows ∧
+      (row ∈ rows ↔ ∃ id vals, w.entity id = some vals ∧
+        specMatches vs f (Spec.maskOf w.n vals) = true ∧ row = vs.map (Spec.cellOf ⟨id, vals⟩))) := by
+  refine ⟨_, query_eq_spec hi vs f, ?_⟩
+  unfold Spec.query
+  simp only [List.mem_map, List.mem_filter]
+  constructor
+  · rintro ⟨e, ⟨he, hm⟩, rfl⟩
+    exact ⟨e.id, e.vals, (mem_ents_iff hi).mp he, hm, rfl⟩
+  · rintro ⟨id, vals, he, hm, rfl⟩
+    exact ⟨⟨id, vals⟩, ⟨(mem_ents_iff hi).mpr he, hm⟩, rfl⟩
+
+/-- Optional views and identifiers never restrict the result set; `&C` / `&mut C` require the
+component. -/
+theorem C03_view_filters (m : Mask) (c : Nat) :
+    (View.oref c).filter m = true ∧ (View.omut c).filter m = true ∧ View.ident.filter m = true ∧
+    (View.ref c).filter m = m.has c ∧ (View.mut c).filter m = m.has c := by
   simp [View.filter]
+
+/-- **Single-entity query through `World::entry`.** -/
+theorem C03_entry_query {w : World} (hi : Inv w) (id : Ident) (vs : List View) (f : Filter) :
+    w.entryQuery id vs f = .ok
+      (match w.entity id with
+       | none => none
+       | some vals =>
+         if specMatches vs f (Spec.maskOf w.n vals) then some (vs.map (Spec.cellOf ⟨id, vals⟩)) else none) :=
+  entryQuery_eq hi id vs f
+
+/-- **Query-time `Entries` with any sub-view of the declared entry views** (any list the
+`SubViewable` impl table admits): same answer as the direct entry query, and no read of an
+uninitialised super-view. -/
+theorem C03_entries_query {w : World} (hi : Inv w) (evs : List View) (id : Ident) (subs : List View)
+    (f : Filter) (hsub : subs.all (fun s => evs.any (fun v => subViewable s v)) = true) :
+    w.entriesQuery evs id subs f = .ok
+      (match w.entity id with
+       | none => none
+       | some vals =>
+         if specMatches subs f (Spec.maskOf w.n vals) then some (subs.map (Spec.cellOf ⟨id, vals⟩)) else none) := by
+  rw [entriesQuery_eq hi evs id subs f hsub]; exact entryQuery_eq hi id subs f
+
+/-- **`size_hint` brackets the true remaining count** (the hint logic of `result::Iter`). -/
+theorem C03_size_hint (vs : List View) (f : Filter) (s : IterSt) :
+    (sizeHint s).1 ≤ remaining vs f s ∧ ∀ h, (sizeHint s).2 = some h → remaining vs f s ≤ h :=
+  sizeHint_brackets vs f s
+
+/-- What the driver's reference oracle computes from a dump (`World.abs`) is the denoted map. -/
+theorem C03_abs_is_ents {w : World} (hi : Inv w) : w.abs = w.ents := abs_eq_ents hi
+
+/-- Non-vacuity: a query with a mandatory, an optional and an identifier view plus a filter over
+a world with three tables. -/
+example :
+    (match run (World.init 3 [])
+        [.insert [0, 1] [⟨0, 1⟩, ⟨1, 2⟩], .insert [0] [⟨0, 3⟩], .insert [1, 2] [⟨1, 4⟩, ⟨2, 5⟩]] with
+     | .ok w =>
+       (match w.query [.ref 0, .oref 1, .ident] (.not (.has 2)) with
+        | .ok rows => rows
+        | .ub _ => [])
+     | .ub _ => []) =
+    [[.val ⟨0, 1⟩, .val ⟨1, 2⟩, .id ⟨0, 0⟩], [.val ⟨0, 3⟩, .absent, .id ⟨1, 0⟩]] := by decide
+
 end Brood
-#print axioms Brood.C03_optional_filter_true
+
+#print axioms Brood.C03_query_exact
+#print axioms Brood.C03_entities_exact
+#print axioms Brood.C03_rows_characterised
+#print axioms Brood.C03_view_filters
+#print axioms Brood.C03_entry_query
+#print axioms Brood.C03_entries_query
+#print axioms Brood.C03_size_hint
+#print axioms Brood.C03_abs_is_ents
